@@ -127,22 +127,22 @@ func (wd *world) reference(nb int, confs [][2]int) [2]int {
 		return r
 	}
 	wd.seq++
-	dir := filepath.Join(wd.dir, fmt.Sprintf("ref%d", wd.seq))
-	db, _, _, bc := newChain(wd.w, dir)
+	// (assembled by the node package: the same engine, but without chain.BlockChain's forwarder to the global bus,
+	// so that nothing of the reference run can reach the manager under test)
+	ref := wd.w.NewNode(filepath.Join(wd.dir, fmt.Sprintf("ref%d", wd.seq)))
 	for h := 1; h <= nb; h++ {
-		if err := bc.InsertBlock(node.Copy(wd.blocks[h], nil)); err != nil {
+		if _, err := ref.DP.InsertBlock(node.Copy(wd.blocks[h], nil)); err != nil {
 			engine.Failf("reference run: InsertBlock(%d): %v", h, err)
 		}
 		for _, c := range confs {
 			if c[0] == h {
 				cd := wd.confirm(c[0], c[1])
-				bc.InsertConfirms(cd.Height, cd.Hash, []types.SignData{cd.SignInfo})
+				_ = ref.DP.InsertConfirms(cd.Height, cd.Hash, []types.SignData{cd.SignInfo})
 			}
 		}
 	}
-	r := [2]int{int(bc.CurrentBlock().Height()), int(bc.StableBlock().Height())}
-	bc.Stop()
-	db.Close()
+	r := [2]int{int(ref.DP.CurrentBlock().Height()), int(ref.DP.StableBlock().Height())}
+	ref.Destroy()
 	wd.refs[key] = r
 	return r
 }
